@@ -267,6 +267,13 @@ func scenarioC04(r *Run) {
 			r.Fail("op-never-returned", "%s %d has not returned although the peer has answered every request (%+v)", op.Kind, op.Idx, op.Reqs[0])
 			return
 		}
+		if op.Err != nil && op.Kind == oBatch {
+			// a Batch reports encoding and sending failures only; what the peer
+			// sent for its entries - results, errors, defective members - comes
+			// back per entry, and none of it may be lost
+			r.Fail("foreign-payload", "Batch %d failed as a whole with %q on a healthy connection: the replies of its entries are lost", op.Idx, op.ErrS)
+			return
+		}
 		if op.Err != nil {
 			if _, ok := op.Err.(*jrpc2.Error); !ok && !w.defectiveSentFor(op) {
 				r.Fail("foreign-payload", "%s %d failed with %q on a healthy connection", op.Kind, op.Idx, op.ErrS)
@@ -345,6 +352,8 @@ func scenarioC05(r *Run) {
 		w.malformedAt = g.Int("malformedat", 5)
 	}
 	w.cEnd.CloseErr = g.Chance("closeerr", 0.12) // a channel whose Close reports an error (it is closed all the same)
+	w.cEnd.StickyRecvErr = g.Chance("stickyrecverr", 0.5)
+	w.cEnd.SendAfterClose = g.Chance("sendafterclose", 0.3) // Close leaves the write side usable: a stopped client must not use it
 	r.applyForce(w.cEnd)
 	defer func() { r.noteOps(w.cEnd) }()
 	w.cEnd.OnFault = func(kind int) {
@@ -353,6 +362,12 @@ func scenarioC05(r *Run) {
 			// one failed Recv, like one failed Send, may or may not be the end of
 			// the channel for the client (it may try again): settled by IsStopped
 			w.causes = append(w.causes, stopCause{Kind: "error", Begin: w.seq(), End: -1, Optional: true})
+		case fRecvErrAgain:
+			// ... but a channel whose Recv has failed three times running has failed
+			if w.cEnd.NRecvStuck == 2 {
+				w.causes = append(w.causes, stopCause{Kind: "error", Begin: w.seq(), End: -1})
+				w.r.Probe("channel-broken-for-good")
+			}
 		case fRecvDataEOF:
 			w.causes = append(w.causes, stopCause{Kind: "eof", Begin: w.seq(), End: -1})
 		case fSendErrLost, fSendErrAfter:
@@ -429,7 +444,7 @@ func (w *cliWorld) settleOptionalCauses() {
 	for _, c := range w.causes {
 		if c.Optional && c.Begin < prev {
 			switch {
-			case stopped && len(w.causes) == 1:
+			case stopped && w.onlyCauseBesidesConsequences(c):
 				// nothing else has happened: the client stopped on this
 				c.Optional = false
 				w.r.Probe("optional-cause-did-stop-the-client")
@@ -441,6 +456,22 @@ func (w *cliWorld) settleOptionalCauses() {
 		kept = append(kept, c)
 	}
 	w.causes = kept
+}
+
+// onlyCauseBesidesConsequences: c is the only thing that has happened to the
+// client, apart from what follows from the client's own stop (the peer, seeing
+// the client's end closed, hangs up in turn).
+func (w *cliWorld) onlyCauseBesidesConsequences(c stopCause) bool {
+	for _, o := range w.causes {
+		if o.Begin == c.Begin && o.Kind == c.Kind {
+			continue
+		}
+		if o.Consequence && o.Begin > c.Begin {
+			continue
+		}
+		return false
+	}
+	return true
 }
 
 func (w *cliWorld) anyDefiniteCauseBefore(seq int) bool {
@@ -749,7 +780,7 @@ func (w *cliWorld) checkC05Final() {
 			}
 			first := true
 			for j, b := range w.causes {
-				if j != i && b.Begin <= a.End {
+				if j != i && b.Begin <= a.End && !(b.Consequence && b.Begin > a.Begin) {
 					first = false
 				}
 			}
